@@ -188,3 +188,6 @@ Proof. destruct l; [contradiction | reflexivity]. Qed.
 
 Lemma app_removelast_last' {A} (l : list A) d : l <> [] -> l = removelast l ++ [last l d].
 Proof. apply app_removelast_last. Qed.
+
+Lemma map_removelast {A B} (f : A -> B) (l : list A) : map f (removelast l) = removelast (map f l).
+Proof. induction l as [|x [|y r] IH]; [reflexivity | reflexivity |]. cbn [removelast map] in *. rewrite IH. reflexivity. Qed.
